@@ -584,22 +584,29 @@ class SFTPFile(BufferedFile):
                 self._prefetch_extents[num] = (offset, length)
 
     def _async_response(self, t, msg, num):
+        data = None
         if t == CMD_STATUS:
             # save exception and re-raise it on next file operation
             try:
                 self.sftp._convert_status(msg)
             except Exception as e:
                 self._saved_exception = e
-            return
-        if t != CMD_DATA:
+            if num in self._reqs:
+                # the status of a pipelined write, not of a prefetch read
+                return
+            # a prefetch read that got no data: the request is answered
+            # all the same, so stop waiting for it below
+        elif t != CMD_DATA:
             raise SFTPError("Expected data")
-        data = msg.get_string()
+        else:
+            data = msg.get_string()
         while True:
             with self._prefetch_lock:
                 # spin if in race with _prefetch_thread
                 if num in self._prefetch_extents:
                     offset, length = self._prefetch_extents[num]
-                    self._prefetch_data[offset] = data
+                    if data is not None:
+                        self._prefetch_data[offset] = data
                     del self._prefetch_extents[num]
                     if len(self._prefetch_extents) == 0:
                         self._prefetch_done = True
